@@ -6,7 +6,8 @@ cd /verif/seeded || exit 2
 run_one() {
   s=$1; P=${s%-*}; AS=${s#*-}
   case $AS in a|b) R=/tmp/seed; C=/tmp/confirm; X=$AS;; c) R=/tmp/seed2; C=/tmp/confirm2; X=a;; d) R=/tmp/seed2; C=/tmp/confirm2; X=b;;
-              e) R=/tmp/seed3; C=/tmp/confirm3; X=a;; f) R=/tmp/seed3; C=/tmp/confirm3; X=b;; g) R=/tmp/seed4; C=/tmp/confirm4; X=a;; h) R=/tmp/seed4; C=/tmp/confirm4; X=b;; esac
+              e) R=/tmp/seed3; C=/tmp/confirm3; X=a;; f) R=/tmp/seed3; C=/tmp/confirm3; X=b;; g) R=/tmp/seed4; C=/tmp/confirm4; X=a;; h) R=/tmp/seed4; C=/tmp/confirm4; X=b;;
+              i) R=/tmp/seed5; C=/tmp/confirm5; X=a;; j) R=/tmp/seed5; C=/tmp/confirm5; X=b;; esac
   [ -d $R/$P ] || { echo "$s NO-WORKTREE"; return; }
   git -C $R/$P reset -q --hard 2>/dev/null
   mkdir -p $R/$P/_seed/$X; cp -r /verif/seeded/$s/. $R/$P/_seed/$X/
